@@ -283,6 +283,19 @@ def main(tier, seed):
                            "tail_call": pipeline.VECTORS[vn]["tail_call_optimization"],
                            "tail_after_call": tail_after_call(a) or tail_after_call(b),
                            "tail_end_label_unterminated": pipeline.VECTORS[vn]["tail_call_optimization"] and (pipeline.end_label_unterminated(a) or pipeline.end_label_unterminated(b))})
+    # label naming across modules: '<module>.<function>' for library functions and '_' -> '.' for every
+    # function name, so the main-file function lib_f0 and the function f0 of library lib get the same label
+    from .c05 import static_labels
+    lib = "def f0(p0):\n    return p0 * 2\n"
+    mainsrc = ("from library import lib\ndef lib_f0(x):\n    return x + 100\ndb.Setting = lib.f0(d0.On)\ndb.Setting = lib.f0(3)\n"
+               "d1.Setting = lib_f0(d0.On)\nd1.Setting = lib_f0(4)\nwhile True:\n    yield_()\n")
+    wr_ = impl.compile_one(({"": mainsrc, "lib": lib}, pipeline.VECTORS["noinline"]))
+    run.count("evaluations")
+    if "code" in wr_:
+        for what in static_labels(wr_["code"]):
+            run.violation("library program: " + what,
+                          {"kind": "label_clash", "clash": "module_function_vs_underscore_name" if "lib.f0" in what else "other",
+                           "split": {"": mainsrc, "lib": lib}, "code": wr_["code"]})
     for f in run.findings.open_for("C13"):
         if f["id"] not in run.known_hits:
             run.note(f"known finding {f['id']} did not reproduce in this run")
